@@ -4,9 +4,9 @@
 package c05rt
 
 import (
-	"encoding/binary"
-	"context"
 	"bytes"
+	"context"
+	"encoding/binary"
 	"encoding/json"
 	"fmt"
 	"math"
@@ -66,6 +66,8 @@ type Recorder struct {
 	preset map[string]reflect.Value
 	Helper interface{}
 	iface  *Iface
+	conc   bool // concurrent phase: every received argument list is kept
+	got    map[string][][]interface{}
 }
 
 // Call records the arguments of an implementor method and fills its result.
@@ -74,6 +76,9 @@ func (r *Recorder) Call(key string, args []interface{}, ret interface{}) error {
 	defer r.mu.Unlock()
 	r.last[key] = args
 	r.count[key]++
+	if r.conc {
+		r.got[key] = append(r.got[key], args)
+	}
 	if ret != nil {
 		if p, ok := r.preset[key]; ok {
 			reflect.ValueOf(ret).Elem().Set(p)
@@ -580,6 +585,101 @@ func Run(reg *Registry, seed int64, rounds int) {
 				}
 				checks++
 			}
+		}
+		// concurrent phase: the generated proxy is used by several goroutines at once; the argument lists
+		// which reach the implementation are, as a multiset, the argument lists which were passed
+		for _, m := range it.Methods {
+			if failed[m.IDL] {
+				continue
+			}
+			pm := px0.MethodByName(m.Proxy)
+			if !pm.IsValid() || pm.Type().NumIn() == 0 {
+				continue
+			}
+			t := pm.Type()
+			const workers, each = 4, 12
+			sent := make([][][]reflect.Value, workers)
+			for w := range sent {
+				for k := 0; k < each; k++ {
+					args := make([]reflect.Value, t.NumIn())
+					for a := range args {
+						args[a] = Random(rng, t.In(a), 2)
+					}
+					sent[w] = append(sent[w], args)
+				}
+			}
+			key := it.Name + "." + m.Impl
+			rec.mu.Lock()
+			rec.conc, rec.got = true, map[string][][]interface{}{}
+			rec.mu.Unlock()
+			errs := make([]error, workers)
+			var wg sync.WaitGroup
+			done := make(chan struct{})
+			for w := 0; w < workers; w++ {
+				w := w
+				wg.Add(1)
+				go func() {
+					defer wg.Done()
+					for _, args := range sent[w] {
+						out := pm.Call(args)
+						if e := out[len(out)-1]; !e.IsNil() && errs[w] == nil {
+							errs[w] = e.Interface().(error)
+						}
+					}
+				}()
+			}
+			go func() { wg.Wait(); close(done) }()
+			if v, _ := stuck.Wait(done, nil, 2*time.Minute); v != stuck.Returned {
+				bad("method=never-returned/concurrent", fmt.Sprintf("%s: calls made by %d goroutines through one generated proxy never returned", m.IDL, workers))
+				emit(Result{T: "abort", Pkg: it.Pkg})
+				os.Exit(0)
+			}
+			rec.mu.Lock()
+			got := rec.got[key]
+			rec.conc = false
+			rec.mu.Unlock()
+			var callErr error
+			for _, e := range errs {
+				if e != nil {
+					callErr = e
+				}
+			}
+			if callErr != nil {
+				bad("method=call-error/concurrent", fmt.Sprintf("%s failed when called by %d goroutines at once: %v", m.IDL, workers, callErr))
+				continue
+			}
+			if len(got) != workers*each {
+				bad("method=not-invoked-once/concurrent", fmt.Sprintf("%s: %d calls made by %d goroutines, the implementation ran %d times", m.IDL, workers*each, workers, len(got)))
+				continue
+			}
+			used := make([]bool, len(got))
+		match:
+			for w := range sent {
+				for _, args := range sent[w] {
+					found := false
+					for g := range got {
+						if used[g] || len(got[g]) != len(args) {
+							continue
+						}
+						same := true
+						for a := range args {
+							if !Equal(args[a], reflect.ValueOf(got[g][a])) {
+								same = false
+								break
+							}
+						}
+						if same {
+							used[g], found = true, true
+							break
+						}
+					}
+					if !found {
+						bad("method=argument-differs/concurrent", fmt.Sprintf("%s: called by %d goroutines at once, the arguments %s of one call never reached the implementation (it ran %d times, once per call)", m.IDL, workers, show(args[0]), len(got)))
+						break match
+					}
+				}
+			}
+			checks++
 		}
 		emit(Result{T: "ok", Pkg: it.Pkg, Iface: it.Name, Checks: checks})
 		sess.Terminate()
